@@ -24,6 +24,10 @@ def subsets(sizes):
 
 
 def make_server(sub, style, offer, banner):
+    if sub and sub[0] == 'split':     # the two group-exchange algorithms are served from different moduli files
+        gex = {SHA1: P.GexPolicy(list(sub[1]), style), SHA256: P.GexPolicy(list(sub[2]), style)}
+        return P.Server(kex=OFFERS[offer] + ['sntrup761x25519-sha512@openssh.com'], key=['ssh-ed25519'], host_keys=P.standard_host_keys(['ssh-ed25519']),
+                        gex=gex, banner=BANNERS[banner])
     return P.Server(kex=OFFERS[offer] + ['sntrup761x25519-sha512@openssh.com'], key=['ssh-ed25519'], host_keys=P.standard_host_keys(['ssh-ed25519']),
                     gex=P.GexPolicy(list(sub), style), banner=BANNERS[banner])
 
@@ -87,7 +91,7 @@ def judge(res, srv, offer, banner, st, detail, fam='gex'):
 
 def work(chunk, st):
     for sub, style, offer, banner in chunk:
-        detail = {'moduli': list(sub), 'style': style, 'offer': offer, 'banner': banner}
+        detail = {'moduli': [list(x) if isinstance(x, tuple) else x for x in sub], 'style': style, 'offer': offer, 'banner': banner}
         srv = make_server(sub, style, offer, banner)
         res = H.audit(srv)
         st.execution(res.world, outcome=(style, offer, banner, res.status), root=(sub, style, offer, banner), nontrivial=(sub, style, offer, banner))
@@ -197,6 +201,8 @@ def run(tier, seed):
     sizes = QUICK_SIZES if tier == 'quick' else ALL_SIZES
     tasks = [(sub, style, offer, banner) for sub in subsets(sizes) for style in (P.STRICT, P.ROUNDUP, P.OPENSSH)
              for offer in OFFERS for banner in BANNERS]
+    split = [(1024,), (2048,), (3072,), (4096,), (2048, 4096), (1536, 3072)]
+    tasks += [(('split', a, b), style, 'both', banner) for a in split for b in split if a != b for style in (P.STRICT, P.ROUNDUP, P.OPENSSH) for banner in BANNERS]
     if tier == 'quick':
         # servers whose smallest (or only other) modulus lies above every range the probe sequence asks for
         tasks += [(sub, style, offer, banner) for sub in LARGE_SETS for style in (P.STRICT, P.ROUNDUP, P.OPENSSH)
@@ -221,7 +227,8 @@ def run(tier, seed):
         rule='every subset of %s (%d) x selection style {strict, round-up, OpenSSH with fallback} x offered {sha1, sha256, both} x banner '
              '{OpenSSH, other}, text and JSON; plus every message-level fault (close, stall, reset, garbage, wrong lengths/type, debug, duplicate, '
              'refuse, timeout) at every probe connection of three representative servers%s' % (
-                 sizes, 2 ** len(sizes), '; plus the size sets %s (moduli above every requested range)' % (LARGE_SETS,) if tier == 'quick' else ''),
+                 sizes, 2 ** len(sizes), ('; plus the size sets %s (moduli above every requested range)' % (LARGE_SETS,) if tier == 'quick' else '') +
+                 '; plus servers handing the two algorithms different moduli (30 ordered pairs of size sets)'),
         assumptions=['expected size is read from the scripted server\'s own log of GEX requests and groups handed out',
                      'OpenSSH selection style modelled after dh.c choose_dh()'],
         exhaustive=True, traces_validated=validated, extra={'servers': len(tasks)})
